@@ -12,6 +12,7 @@ def parseScript (s : String) : Option (List Outcome) :=
   (s.splitOn ",").mapM fun item =>
     if item == "L" then some Outcome.lost
     else if item.startsWith "R:" then (parseHex (item.drop 2).toString).map Outcome.reply
+    else if item.startsWith "R!:" then (parseHex (item.drop 3).toString).map Outcome.reply   -- … and the context ends: the script ends here
     else none
 
 def showRes : Res → String
